@@ -165,6 +165,41 @@ class Family:
         return self.by_key.get(key)
 
 
+def enum_values(name, relpath="kernel/lafem/base.hpp"):
+    """{enumerator: value} of `enum class <name>` parsed from the repository source (sequential values)"""
+    try:
+        txt = open(featlib.repo_path(relpath)).read()
+    except OSError:
+        return None
+    m = re.search(r"enum\s+class\s+%s\s*\{(.*?)\}" % re.escape(name), txt, re.S)
+    if not m:
+        return None
+    body = re.sub(r"/\*.*?\*/", "", m.group(1), flags=re.S)
+    body = re.sub(r"//[^\n]*", "", body)
+    out, val = {}, -1
+    for item in body.split(","):
+        item = item.strip()
+        if not item:
+            continue
+        mm = re.match(r"^(\w+)\s*(?:=\s*(\d+))?$", item)
+        if not mm:
+            return None
+        val = int(mm.group(2)) if mm.group(2) else val + 1
+        out[mm.group(1)] = val
+    return out
+
+
+def interpret_cases(fam, fn, summaries):
+    """interpret fn once, or - if it takes a CloneMode parameter - once per enumerator (the enum is
+    exhaustive, so the fall-through path of an if-chain over all enumerators is not a path).
+    -> list of (case label, Interp)"""
+    modep = [p["n"] for p in fn.params if short(fn.type(p["t"])).replace("const ", "").strip() == "CloneMode"]
+    vals = enum_values("CloneMode") if modep else None
+    if not modep or not vals:
+        return [("", Interp(fam, fn, summaries=summaries).run())]
+    return [("%s=%s" % (modep[0], name), Interp(fam, fn, env={modep[0]: v}, summaries=summaries).run()) for name, v in sorted(vals.items(), key=lambda kv: kv[1])]
+
+
 def errors_in_family(fam, facts):
     """front-end errors located inside the body of a family function: its fact tree is unreliable"""
     out = []
@@ -250,6 +285,8 @@ def join_state(a, b):
             continue
         if k[0] == "flag":
             out[k] = join_flag(a[k], b[k])
+        elif k[0] == "len":
+            out[k] = join_len(a[k], b[k], "%s/%s" % (k[1].split("#")[0], k[2]))
         else:
             out[k] = join_vs(a[k], b[k])
     # object-level join: two different but each self-consistent states of one object join to
@@ -270,6 +307,32 @@ def join_state(a, b):
                 else:
                     out[x] = VS("VALID", tag, a[x].origin | b[x].origin)
     return out
+
+
+# ---- lengths of a pointer vector V and of its size vector V_size: (base symbol, offset) each ------
+L0 = ("0", 0)
+
+
+def len_opaque(l):
+    return l[0] == "U" or l[0].startswith("e:")
+
+
+def join_len(a, b, tag):
+    """a, b: pairs (len V, len V_size)"""
+    if a == b:
+        return a
+    if a[0] == a[1] and b[0] == b[1]:
+        s = ("j:" + tag, 0)
+        return (s, s)
+    out = []
+    for i, (x, y) in enumerate(zip(a, b)):
+        if x == y:
+            out.append(x)
+        elif len_opaque(x) or len_opaque(y) or x[0] == y[0]:
+            out.append(("U", 0))          # grows in a loop / unknown on one path
+        else:
+            out.append(("ne:%s%d" % (tag, i), 0))   # definitely different histories on the two paths
+    return tuple(out)
 
 
 def consistent(vs, flag):
@@ -355,6 +418,9 @@ class Interp:
         st[("flag", o)] = fl
         st[(o, "elements")] = vs
         st[(o, "indices")] = vs
+        for kind in ("elements", "indices"):
+            sym = ("n:%s@entry/%s" % (o.split("#")[0], kind), 0)
+            st[("len", o, kind)] = (sym, sym)
 
     def set_valid(self, st, o, cls_short):
         self.fresh += 1
@@ -362,6 +428,9 @@ class Interp:
         st[("flag", o)] = fl
         st[(o, "elements")] = vs
         st[(o, "indices")] = vs
+        for kind in ("elements", "indices"):
+            sym = ("n:%s@%d/%s" % (o.split("#")[0], self.fresh, kind), 0)
+            st[("len", o, kind)] = (sym, sym)
 
     # ---- entry ---------------------------------------------------------------------------------
     def run(self):
@@ -371,6 +440,8 @@ class Interp:
             st[("flag", "this")] = "F" if self.cls == "SparseLayout" else "U"
             st[("this", "elements")] = EMPTY
             st[("this", "indices")] = EMPTY
+            st[("len", "this", "elements")] = (L0, L0)
+            st[("len", "this", "indices")] = (L0, L0)
             try:
                 for i in fn.d.get("inits") or []:
                     st = self.ctor_init(i, st)
@@ -404,6 +475,10 @@ class Interp:
                 st[("this", kind)] = EMPTY
                 return st
             src = a[0]
+            cur = st.get(("len", "this", kind), (L0, L0))
+            st[("len", "this", kind)] = (self.len_of_vec(src, st), cur[1])
+            if src.get("k") == "Call" and src.get("callee") == "std::move":
+                self.zero_len(src, st)
             moved = src.get("k") == "Call" and src.get("callee") == "std::move"
             s = unwrap(src)
             vm = vec_member(s)
@@ -425,6 +500,18 @@ class Interp:
             raise Unknown("initialiser of %s: %s" % (m, render(init)[:120]))
         if m == "_foreign_memory":
             st[("flag", "this")] = self.flag_value(init, st)
+            return st
+        if m in ("_elements_size", "_indices_size") and self.cls in self.fam.classes:
+            kind = m[1:-5]
+            a = (init or {}).get("a") or []
+            cur = st.get(("len", "this", kind), (L0, L0))
+            if not a:
+                st[("len", "this", kind)] = (cur[0], L0)
+            else:
+                moved = a[0].get("k") == "Call" and a[0].get("callee") == "std::move"
+                st[("len", "this", kind)] = (cur[0], self.len_of_vec(a[0], st))
+                if moved:
+                    self.zero_len(a[0], st)
             return st
         return self.expr(init, st) if init is not None else st
 
@@ -524,6 +611,11 @@ class Interp:
         k = c.get("k")
         if k == "Bool":
             return bool(c["v"])
+        if k == "Ref" and c.get("v") is not None and c.get("dk") in ("smember", "global", "tparam", "enum"):
+            try:
+                return bool(int(c["v"]))          # compile-time constant (std::is_same<...>::value, ...)
+            except ValueError:
+                return None
         if k == "Un" and c.get("op") == "!":
             v = self.eval_cond(c["e"])
             return None if v is None else (not v)
@@ -711,6 +803,66 @@ class Interp:
             self.loop_depth -= 1
 
     def _generic_loop(self, n, st):
+        res = self._generic_loop0(n, st)
+        if res is None or n.get("k") != "For":
+            return res
+        # canonical counting loop `for(i = 0; i < E; ++i)` that pushes exactly once per iteration into a
+        # vector that was empty before: its length afterwards is the trip count
+        trip = self.trip_count(n, st)
+        if trip is None:
+            return res
+        body = n.get("body") or {}
+        top = body.get("s", []) if body.get("k") == "Block" else [body]
+        counts = {}
+        for x in walk(body):
+            if x.get("k") == "MCall" and x.get("n") in ("push_back", "clear", "assign", "resize", "pop_back", "erase", "insert", "emplace_back") and x.get("obj") is not None:
+                for fn_, comp in ((vec_member, 0), (size_member, 1)):
+                    vm = fn_(x["obj"])
+                    if vm and obj_id(vm[1]):
+                        key = (obj_id(vm[1]), vm[0], comp)
+                        c = counts.setdefault(key, [0, 0])
+                        c[0] += 1
+                        if x.get("n") == "push_back" and any(x is t for t in top):
+                            c[1] += 1
+            if x.get("k") == "OpCall" and x.get("op") == "=" and x.get("a") and (vec_member(x["a"][0]) or size_member(x["a"][0])):
+                vm = vec_member(x["a"][0]) or size_member(x["a"][0])
+                if obj_id(vm[1]):
+                    counts.setdefault((obj_id(vm[1]), vm[0], 0 if vec_member(x["a"][0]) else 1), [0, 0])[0] += 5
+        for (o, kind, comp), (total, toplevel) in counts.items():
+            if total == 1 and toplevel == 1 and ("len", o, kind) in st and ("len", o, kind) in res and st[("len", o, kind)][comp] == L0:
+                res = dict(res)
+                self.set_len(res, o, kind, comp, trip)
+        return res
+
+    def trip_count(self, n, st):
+        init, c, inc = n.get("init"), n.get("c") or {}, n.get("inc") or {}
+        if init is None or init.get("k") != "Decl" or len(init.get("vars", [])) != 1:
+            return None
+        v = init["vars"][0]
+        if v.get("init") is None or unwrap(v["init"]).get("k") != "Int" or unwrap(v["init"])["v"] != "0":
+            return None
+        if not (inc.get("k") == "Un" and inc.get("op") == "++" and unwrap(inc["e"]).get("d") == v["d"]):
+            return None
+        if not (c.get("k") == "Bin" and c.get("op") in ("<", "!=") and unwrap(c["lhs"]).get("d") == v["d"]):
+            return None
+        if self.reassigned_in(n.get("body"), v["d"]):
+            return None
+        e = unwrap(c["rhs"])
+        while e.get("k") in ("Construct", "TempObj") and len(e.get("a", [])) == 1:
+            e = unwrap(e["a"][0])
+        if e.get("k") == "MCall" and e.get("n") == "size" and e.get("obj") is not None:
+            return self.len_of_vec(e["obj"], dict(st))
+        return ("e:" + render(e)[:40], 0)
+
+    def reassigned_in(self, body, d):
+        for x in walk(body or {}):
+            if x.get("k") == "Assign" and unwrap(x["lhs"]).get("d") == d:
+                return True
+            if x.get("k") == "Un" and x.get("op") in ("++", "--") and unwrap(x["e"]).get("d") == d:
+                return True
+        return False
+
+    def _generic_loop0(self, n, st):
         k = n["k"]
         if k == "For" and n.get("init") is not None:
             st = self.stmt(n["init"], st)
@@ -1090,6 +1242,10 @@ class Interp:
                 st[("flag", o)] = fl
                 st[(o, "elements")] = VS(ve.own, None, ve.origin)
                 st[(o, "indices")] = VS(vi.own, None, vi.origin)
+                self.fresh += 1
+                for kind, v in (("elements", ve), ("indices", vi)):
+                    sym = L0 if v.own == "EMPTY" else ("n:%s@%d/%s" % (o.split("#")[0], self.fresh, kind), 0)
+                    st[("len", o, kind)] = (sym, sym)
                 return st
         self.set_valid(st, o, cls_short)
         return st
@@ -1224,8 +1380,122 @@ def _src_of_range(self, args, kind):
     return names[0] if names[0] == names[1] else None
 
 
-Interp.event = _event
+def size_member(n):
+    if n is not None and n.get("k") == "Member":
+        m = SIZE_RE.search(n.get("qn", ""))
+        if m:
+            return m.group(1), n.get("b")
+    return None
+
+
+def _len_of_vec(self, x, st):
+    """abstract length of the std::vector denoted by x (a pointer vector, a size vector, a getter, a parameter)"""
+    x = unwrap(x)
+    for fn_, comp in ((vec_member, 0), (size_member, 1)):
+        vm = fn_(x)
+        if vm:
+            o = obj_id(vm[1])
+            if o is None:
+                return ("e:" + render(x)[:40], 0)
+            self.ensure(st, o, self.obj_type(vm[1]))
+            return st[("len", o, vm[0])][comp]
+    if x.get("k") == "MCall" and x.get("n") in ("get_elements", "get_indices", "get_elements_size", "get_indices_size") and x.get("obj") is not None:
+        o = obj_id(x["obj"])
+        if o is not None:
+            self.ensure(st, o, self.obj_type(x["obj"]))
+            nm = x["n"][4:]
+            comp = 1 if nm.endswith("_size") else 0
+            return st[("len", o, nm.replace("_size", ""))][comp]
+    if x.get("k") == "Ref" and x.get("dk") == "param":
+        nm = x["n"]
+        return ("p:" + (nm[:-5] if nm.endswith("_size") else nm), 0)
+    return ("e:" + render(x)[:40], 0)
+
+
+def _zero_len(self, x, st):
+    x = unwrap(x)
+    for fn_, comp in ((vec_member, 0), (size_member, 1)):
+        vm = fn_(x)
+        if vm and obj_id(vm[1]):
+            o = obj_id(vm[1])
+            cur = list(st[("len", o, vm[0])])
+            cur[comp] = L0
+            st[("len", o, vm[0])] = tuple(cur)
+
+
+def _set_len(self, st, o, kind, comp, val):
+    cur = list(st[("len", o, kind)])
+    cur[comp] = val
+    st[("len", o, kind)] = tuple(cur)
+
+
+def _range_src(args):
+    """X of `X.begin(), X.end()`"""
+    if len(args) == 2:
+        a = unwrap(args[0])
+        if a.get("k") == "MCall" and a.get("n") in ("begin", "cbegin") and a.get("obj") is not None:
+            return a["obj"]
+    return None
+
+
+def _event_len(self, n, st, base_init, decl_obj):
+    """length bookkeeping of V / V_size, layered over the ownership events"""
+    k = n.get("k")
+    if k == "MCall" and n.get("obj") is not None:
+        for fn_, comp in ((vec_member, 0), (size_member, 1)):
+            vm = fn_(n["obj"])
+            if not vm:
+                continue
+            kind, b = vm
+            o = obj_id(b)
+            m = n.get("n")
+            if o is None:
+                if comp == 1 and m not in VEC_READS | VEC_SLOT:
+                    raise Unknown("size vector of an unnamed object modified at line %s" % n.get("l"))
+                break
+            self.ensure(st, o, self.obj_type(b))
+            if m == "push_back":
+                cur = st[("len", o, kind)][comp]
+                self.set_len(st, o, kind, comp, (cur[0], cur[1] + 1))
+                self.touched = True
+            elif m == "clear":
+                self.set_len(st, o, kind, comp, L0)
+                self.touched = True
+            elif m == "assign":
+                src = _range_src(n.get("a") or [])
+                self.set_len(st, o, kind, comp, self.len_of_vec(src, st) if src is not None else ("e:" + render(n)[:40], 0))
+                self.touched = True
+            elif comp == 1 and m not in VEC_READS | VEC_SLOT:
+                raise Unknown("unmodelled std::vector operation %s on %s._%s_size at line %s" % (m, o.split("#")[0], kind, n.get("l")))
+            if comp == 1:
+                return st
+            break
+    if k == "OpCall" and n.get("op") == "=" and n.get("a"):
+        for fn_, comp in ((vec_member, 0), (size_member, 1)):
+            vm = fn_(n["a"][0])
+            if not vm:
+                continue
+            kind, b = vm
+            o = obj_id(b)
+            if o is None:
+                raise Unknown("assignment to a vector of an unnamed object at line %s" % n.get("l"))
+            self.ensure(st, o, self.obj_type(b))
+            rhs = n["a"][1]
+            self.set_len(st, o, kind, comp, self.len_of_vec(rhs, st))
+            if rhs.get("k") == "Call" and rhs.get("callee") == "std::move":
+                self.zero_len(rhs, st)
+            self.touched = True
+            if comp == 1:
+                return st
+            break
+    return _event(self, n, st, base_init, decl_obj)
+
+
+Interp.event = _event_len
 Interp.src_of_range = _src_of_range
+Interp.len_of_vec = _len_of_vec
+Interp.zero_len = _zero_len
+Interp.set_len = _set_len
 
 
 # -------------------------------------------------------------------------------------------------
@@ -1427,4 +1697,26 @@ def exit_obligations(it):
                 prev = out.get((rule, name))
                 if prev is None or (prev[0] and not ok):
                     out[(rule, name)] = (ok, det, line)
+                # length agreement of V and V_size
+                ln = st.get(("len", o, kind))
+                if ln is not None and not fn.d.get("dtor"):
+                    if ln[0] == ln[1]:
+                        ok2, det2 = True, "ok"
+                    elif len_opaque(ln[0]) or len_opaque(ln[1]):
+                        ok2, det2 = True, "undecided: lengths %s / %s depend on data-dependent loop bounds" % (show_len(ln[0]), show_len(ln[1]))
+                    else:
+                        ok2 = False
+                        det2 = "exit at line %s: %s holds %s arrays but %s_size holds %s extents: a clear()/assign()/move of one vector is not matched on its partner, so slot i of the size vector no longer describes array i (format/clone/copy/serialize then use the extent of another array)" % (
+                            line, name, show_len(ln[0]), name, show_len(ln[1]))
+                    prev = out.get(("size-vector-length", name))
+                    if prev is None or (prev[0] and not ok2) or (prev[0] and ok2 and prev[1].startswith("undecided") and not det2.startswith("undecided")):
+                        out[("size-vector-length", name)] = (ok2, det2, line)
     return [(r, n, v[0], v[1], v[2]) for (r, n), v in sorted(out.items())]
+
+
+def show_len(l):
+    b, o = l
+    if b == "0":
+        return str(o)
+    b = {"U": "an unknown number of"}.get(b, "len(%s)" % b.split(":", 1)[-1])
+    return b if o == 0 else "%s%+d" % (b, o)
